@@ -2,10 +2,13 @@
    only after h sent a Basic challenge earlier in the history. *)
 From Oras Require Import Base.Prelude Model.Scopes Model.Challenge Model.AuthClient Proofs.AuthClient.
 
-Definition basic_inv (f : flavour) (past : list event) (c : cc) : Prop :=
-  forall h, cache_get_scheme f c h = Some SchBasic -> basic_challenged h past.
+Section WithParse.
+Variable parse : str -> scheme * params.
 
-Lemma bc_mono h l l' : basic_challenged h l -> basic_challenged h (l ++ l').
+Definition basic_inv (f : flavour) (past : list event) (c : cc) : Prop :=
+  forall h, cache_get_scheme f c h = Some SchBasic -> basic_challenged parse h past.
+
+Lemma bc_mono h l l' : basic_challenged parse h l -> basic_challenged parse h (l ++ l').
 Proof.
   intros (a & fr & hdr & ps & Hin & P). exists a, fr, hdr, ps. split; auto. apply in_or_app. now left.
 Qed.
@@ -33,7 +36,7 @@ Proof.
 Qed.
 
 Lemma basic_inv_store_basic f past c evs h k v :
-  basic_inv f past c -> basic_challenged h (past ++ evs) ->
+  basic_inv f past c -> basic_challenged parse h (past ++ evs) ->
   basic_inv f (past ++ evs) (cache_store f c h SchBasic k v).
 Proof.
   intros H B h' E. rewrite cache_scheme_store in E. destruct f; [discriminate| |];
@@ -42,7 +45,7 @@ Qed.
 
 Definition basic_send_ok (past pre : list event) (s : send) : Prop :=
   match s with
-  | SReg h (ABasic _) _ => basic_challenged h (past ++ pre)
+  | SReg h (ABasic _) _ => basic_challenged parse h (past ++ pre)
   | _ => True
   end.
 
@@ -83,7 +86,7 @@ Qed.
 
 Ltac bc_first :=
   match goal with
-  | |- basic_challenged _ (_ ++ _) =>
+  | |- basic_challenged _ _ (_ ++ _) =>
     eexists _, _, _, _; split; [apply in_or_app; right; left; reflexivity | eassumption]
   end.
 
@@ -106,7 +109,7 @@ Ltac hcrush :=
 
 Lemma do_request_basic clean cf c rq script past :
   basic_inv (cf_flavour cf) past c ->
-  let '(evs, c', r) := do_request clean cf c rq script in
+  let '(evs, c', r) := do_request clean parse cf c rq script in
   basic_inv (cf_flavour cf) (past ++ evs) c' /\ basic_trace_from past [] evs.
 Proof.
   intro H. unfold do_request.
@@ -117,12 +120,12 @@ Proof.
   simpl in H1.
   assert (H1' : match a1 with
                 | NoAuth => True
-                | ABasic _ => basic_challenged (rq_host rq) past
+                | ABasic _ => basic_challenged parse (rq_host rq) past
                 | ABearer _ => True
                 end) by (destruct a1; auto).
   clear H1.
   destruct script as [|[| hdr | id | | ] script1]; try (hleaf; fail).
-  destruct (parse_challenge hdr) as [|[| |] ps] eqn:Ech; try (hleaf; fail).
+  destruct (parse hdr) as [[| |] ps] eqn:Ech; try (hleaf; fail).
   - unfold fetch_basic, final_send. hcrush.
   - set (scopes := if is_empty (get_param s_scope ps) then _ else _).
     set (key := join [c_space] scopes).
@@ -134,15 +137,15 @@ Qed.
 Lemma run_history_basic clean cf : forall hist c past,
   basic_inv (cf_flavour cf) past c ->
   forall pre h t fr ans post,
-    concat (map fst (fst (run_history clean cf c hist))) = pre ++ (SReg h (ABasic t) fr, ans) :: post ->
-    basic_challenged h (past ++ pre).
+    concat (map fst (fst (run_history clean parse cf c hist))) = pre ++ (SReg h (ABasic t) fr, ans) :: post ->
+    basic_challenged parse h (past ++ pre).
 Proof.
   induction hist as [|[rq script] hist IH]; intros c past Hinv pre h t fr ans post E; simpl in E.
   - destruct pre; discriminate.
   - pose proof (do_request_basic clean cf c rq script past Hinv) as D.
-    destruct (do_request clean cf c rq script) as [[evs c'] r]. destruct D as [Hinv' Htr].
+    destruct (do_request clean parse cf c rq script) as [[evs c'] r]. destruct D as [Hinv' Htr].
     specialize (IH c' (past ++ evs) Hinv').
-    destruct (run_history clean cf c' hist) as [rest c'']. simpl in *.
+    destruct (run_history clean parse cf c' hist) as [rest c'']. simpl in *.
     symmetry in E. apply app_eq_app in E as (l & [[E1 E2]|[E1 E2]]).
     + (* the send is in a later request *)
       subst pre. rewrite app_assoc. eapply IH. exact E2.
@@ -158,8 +161,10 @@ Lemma basic_inv_nil f past : basic_inv f past [].
 Proof. intros h E. destruct f; discriminate. Qed.
 
 Lemma history_basic_only_after_challenge clean cf hist pre h t fr ans post :
-  concat (map fst (fst (run_history clean cf [] hist))) = pre ++ (SReg h (ABasic t) fr, ans) :: post ->
-  basic_challenged h pre.
+  concat (map fst (fst (run_history clean parse cf [] hist))) = pre ++ (SReg h (ABasic t) fr, ans) :: post ->
+  basic_challenged parse h pre.
 Proof.
   intro E. exact (run_history_basic clean cf hist [] [] (basic_inv_nil _ _) pre h t fr ans post E).
 Qed.
+
+End WithParse.
